@@ -488,7 +488,7 @@ func c28(c *rig.Ctx) {
 	c.Assume("the ledger is cut at DROP TABLE (sequence may restart); ids consumed by failed or rolled-back statements are gaps")
 	srv, stop := startServer(c, "c28")
 	defer stop()
-	nruns := c.Pick(6, 60)
+	nruns := c.Pick(5, 60)
 	tot := map[string]int{}
 	for i := 0; i < nruns; i++ {
 		r := c.SubRand("c28cfg", i)
@@ -507,13 +507,21 @@ func c28(c *rig.Ctx) {
 		if i < 2 {
 			c.Sample(map[string]any{"db": run.db, "sessions": run.sessions, "stats": st, "ledger_head": head(run.ledger, 6)})
 		}
-		if distinctViolationKeys() > 8 {
+		if distinctViolationKeys() > 25 {
 			break
 		}
 	}
+	// statement-lock modes: the mode is latched by each database's tracker when the database is created
+	nh := c.Pick(4, 40)
+	for i := 0; i < nh && distinctViolationKeys() <= 25; i++ {
+		c28Hammer(c, srv, i, []int{0, 1, 0, 1, 2}[i%5], tot)
+	}
+	rig.Must(setAutoincLockMode(2))
 	for k, v := range tot {
 		c.Count("c28."+k, v)
 	}
+	c.Require(tot["hammer.runs_lock_mode_0"] > 0 && tot["hammer.runs_lock_mode_1"] > 0, "no run under innodb_autoinc_lock_mode 0 / 1")
+	c.Require(tot["hammer.stmts_started_with_2_others_in_flight"] > 0 && tot["hammer.overlapping_cross_branch_pairs"] > 0, "hammer runs had no statement contended by 3 sessions")
 	c.Require(tot["ledger_entries_generated"] > 0, "no generated id observed")
 	c.Require(tot["overlapping_cross_branch_pairs"] > 0, "no two inserts on different branches overlapped in time")
 	c.Require(tot["hb_pairs_checked"] > 0, "no happens-before pair of inserts")
